@@ -287,7 +287,7 @@ class Ref:
         s = self.sims[sid]
         st = s.inflight
         self.trace.append(('end', sid, nxt))
-        if nxt is not None and bool(nxt < self.until):
+        if nxt is not None and isinstance(nxt, int) and not isinstance(nxt, bool) and bool(nxt < self.until):
             self.add_demand(s, self.zeros(s, nxt), ('self', st))
         if not s.requested_output:
             s.inflight = None
